@@ -118,6 +118,8 @@ PROGRAMS = [
             B("struct N {", [D("int n;")], "};"),
             D("enum { X };"), D("typedef int TT;"), D("using UU = int;"),
             D("private:", 0), D("int b : 3,\n    c;", 2), D("static void sm(int);"), D("using Base::x;"),
+            D("operator bool() const;"), D("explicit operator int *();"), D("S &operator=(const S &);"), D("template <typename Q>\noperator Q() const;"),
+            D("virtual void vm() = 0;"), D("int dm = 3;"),
         ], "} s1, *s2;", 2),
         D("int after;"),
     ],
@@ -253,6 +255,8 @@ PRE = [
     ("decl-continued", "int k = 1 + \\\n 2;\n", 2, None),
     ("crlf", "int w;\r\n", 1, None),
     ("crlf-blank2", "\r\n\r\n", 2, None),
+    ("blank-with-blanks", "  \n\t\n", 2, None),
+    ("decl-then-blank-with-blanks", "int z0;  \n   \n", 2, None),
     ("line", '#line 100 "g.h"\n', None, (100, "g.h")),
     ("hash", '# 7 "dir/h.h" 2\n', None, (7, "dir/h.h")),
     ("ml-decl", "void fn(int a,\n        int b);\n", 2, None),
